@@ -35,6 +35,14 @@ func main() {
 		}
 		os.Exit(runner.WorkerMain(p, args[2], seed, shard, nshards, args[6], only))
 	}
+	if len(args) >= 6 && args[0] == "--witness" {
+		p, ok := props.Registry[args[1]]
+		if !ok {
+			os.Exit(2)
+		}
+		seed, _ := strconv.ParseInt(args[3], 10, 64)
+		os.Exit(runner.WitnessMain(p, args[2], seed, args[4], args[5]))
+	}
 	if len(args) < 2 {
 		fmt.Fprintln(os.Stderr, "usage: vcheck <Cxx> <quick|thorough> | vcheck <Cxx> --replay <file>")
 		os.Exit(2)
